@@ -35,8 +35,12 @@ def tier_list(x, tier):
     return x
 
 
+EVIDENCE_REPO = ["/repo"]
+
+
 def main(pid, tier, repo, seed, replay):
     t0 = time.time()
+    EVIDENCE_REPO[0] = repo
     prop = load_prop(pid)
     if prop is None:
         print("check: no configuration for property %s (not claimed)" % pid)
@@ -94,7 +98,9 @@ def main(pid, tier, repo, seed, replay):
     if violations:
         rc = 1
         for n, f in enumerate(violations):
-            path = os.path.join(VERIF, "replay", "%s-%s-%d.json" % (pid, tier, n))
+            rdir = os.path.join(VERIF, "replay") if os.path.abspath(repo) == "/repo" else os.path.join(BUILD, "replay-scratch")
+            os.makedirs(rdir, exist_ok=True)
+            path = os.path.join(rdir, "%s-%s-%d.json" % (pid, tier, n))
             wit = f.get("witness")
             if wit is None and f.get("engine") == "V":
                 try:
@@ -246,4 +252,7 @@ def write_evidence(pid, prop, tier, seed, outcomes, violations, known_hits, unde
     ev = dict(property_id=pid, tier=tier, seed=seed, level=level, coverage=cov,
               assumptions=sorted(set(list(prop.get("assumptions", [])) + assumed)),
               wall_s=round(wall, 2), violations=len(violations))
-    json.dump(ev, open(os.path.join(VERIF, "evidence", pid + ".json"), "w"), indent=1, default=str)
+    # evidence describes /repo itself; runs against scratch copies (VERIF_REPO) must never overwrite it
+    edir = os.path.join(VERIF, "evidence") if os.path.abspath(EVIDENCE_REPO[0]) == "/repo" else os.path.join(BUILD, "evidence-scratch")
+    os.makedirs(edir, exist_ok=True)
+    json.dump(ev, open(os.path.join(edir, pid + ".json"), "w"), indent=1, default=str)
